@@ -1502,7 +1502,7 @@ Section Reboot.
   (* is this step an update call that schedules node n (named, known, effective)? with which key? *)
   Definition schedules (g : gw) (o : op) (n : Z) : option fwkey :=
     match o with
-    | UpdateFw ns tt vv bin => if zmem n ns && known g n then update_key g tt vv bin else None
+    | UpdateFw ns ft fv bin => if zmem n ns && known g n then update_key g ft fv bin else None
     | _ => None
     end.
 
@@ -1583,3 +1583,81 @@ Section Reboot.
         destruct (zmem n ns && known g n); reflexivity.
   Qed.
 End Reboot.
+
+(* ================================================================ M. which requests are malformed *)
+
+Definition is_hexdigit (c : N) : bool := match hexval c with Some _ => true | None => false end.
+(* exactly 4 hex digits (either case) per 16-bit word, nothing else *)
+Definition hex_request_ok (s : pstr) (words : nat) : bool :=
+  Nat.eqb (List.length s) (4 * words) && forallb is_hexdigit s.
+
+Lemma is_hexdigit_ascii c : is_hexdigit c = true -> (c <? 128)%N = true.
+Proof.
+  unfold is_hexdigit, hexval. intro H. apply N.ltb_lt.
+  destruct ((48 <=? c) && (c <=? 57))%N eqn:A; [apply andb_true_iff in A as [_ A]; apply N.leb_le in A; lia|].
+  destruct ((65 <=? c) && (c <=? 70))%N eqn:B; [apply andb_true_iff in B as [_ B]; apply N.leb_le in B; lia|].
+  destruct ((97 <=? c) && (c <=? 102))%N eqn:D; [apply andb_true_iff in D as [_ D]; apply N.leb_le in D; lia|].
+  discriminate.
+Qed.
+
+Lemma unhex_pairs_some : forall s b, unhex_pairs s = Some b ->
+  forallb is_hexdigit s = true /\ List.length s = (2 * List.length b)%nat.
+Proof.
+  fix IH 1. intros s b. destruct s as [|a [|c r]].
+  - intro H; inversion H. split; reflexivity.
+  - discriminate.
+  - rewrite unhex_pairs_cons2.
+    destruct (hexval a) as [x|] eqn:Ea; [|discriminate].
+    destruct (hexval c) as [y|] eqn:Ec; [|discriminate].
+    destruct (unhex_pairs r) as [b'|] eqn:Er; [|discriminate].
+    unfold option_map. intro H. inversion H; subst b. destruct (IH r b' Er) as [F L].
+    split.
+    + cbn [forallb]. unfold is_hexdigit at 1 2. rewrite Ea, Ec. exact F.
+    + cbn [List.length]. rewrite L. lia.
+Qed.
+
+Lemma unhex_pairs_complete : forall s, Nat.even (List.length s) = true -> forallb is_hexdigit s = true ->
+  exists b, unhex_pairs s = Some b.
+Proof.
+  fix IH 1. intros s. destruct s as [|a [|c r]].
+  - intros _ _. exists []. reflexivity.
+  - discriminate.
+  - intros E F. rewrite unhex_pairs_cons2. cbn [forallb] in F.
+    apply andb_true_iff in F as [Fa F]. apply andb_true_iff in F as [Fc F].
+    unfold is_hexdigit in Fa, Fc.
+    destruct (hexval a) as [x|]; [|discriminate]. destruct (hexval c) as [y|]; [|discriminate].
+    destruct (IH r) as [b' Er]; [exact E|exact F|]. rewrite Er. eexists. reflexivity.
+Qed.
+
+Lemma odd_four n : Nat.odd (4 * n) = false.
+Proof. replace (4 * n)%nat with (2 * (2 * n))%nat by lia. apply odd_double. Qed.
+
+Theorem fw_hex_to_int_ok_iff s n : (exists ws, fw_hex_to_int s n = Ok ws) <-> hex_request_ok s n = true.
+Proof.
+  unfold hex_request_ok, fw_hex_to_int, unhexlify. split.
+  - intros [ws H].
+    destruct (negb (is_ascii s)); [discriminate|].
+    destruct (Nat.odd (List.length s)); [discriminate|].
+    destruct (unhex_pairs s) as [b|] eqn:U; cbn [of_option bind] in H; [|discriminate].
+    destruct (unhex_pairs_some s b U) as [F L]. rewrite F, andb_true_r.
+    unfold unpack_le16 in H. destruct (Nat.eqb (List.length b) (2 * n)) eqn:E; [|discriminate].
+    apply Nat.eqb_eq in E. apply Nat.eqb_eq. lia.
+  - intro H. apply andb_true_iff in H as [L F]. apply Nat.eqb_eq in L.
+    assert (A : is_ascii s = true).
+    { unfold is_ascii. rewrite forallb_forall in *. intros c I. apply is_hexdigit_ascii. apply F. exact I. }
+    rewrite A. cbn [negb]. rewrite L, odd_four.
+    destruct (unhex_pairs_complete s) as [b U]; [|exact F|].
+    { rewrite L. rewrite <- Nat.negb_odd, odd_four. reflexivity. }
+    rewrite U. cbn [of_option bind]. destruct (unhex_pairs_some s b U) as [_ L2].
+    unfold unpack_le16. replace (Nat.eqb (List.length b) (2 * n)) with true; [eauto|].
+    symmetry. apply Nat.eqb_eq. lia.
+Qed.
+
+(* a request is malformed (raises inside the try) iff its payload is not exactly 4*words hex digits *)
+Theorem fw_hex_to_int_raises_iff s n : (exists e, fw_hex_to_int s n = Raise e) <-> hex_request_ok s n = false.
+Proof.
+  destruct (hex_request_ok s n) eqn:H.
+  - apply fw_hex_to_int_ok_iff in H as [ws E]. rewrite E. split; [intros [e X]; discriminate|discriminate].
+  - split; [reflexivity|]. intros _. destruct (fw_hex_to_int s n) as [ws|e] eqn:E; [|eauto].
+    assert (X : hex_request_ok s n = true) by (apply fw_hex_to_int_ok_iff; eauto). congruence.
+Qed.
